@@ -25,7 +25,7 @@ if [ $suite_tests = fail ]; then
   suite_tests=$(cd $WT/tests && go test -vet=off -count=1 ./... >/tmp/seed_suite_$$ 2>&1 && echo pass || echo fail)
 fi
 rm -f /tmp/seed_suite_$$
-out=$(cd /verif && VERIF_REPO=$WT VERIF_TIER=$TIER timeout 1500 ./check $P 2>&1 | tail -6)
+out=$(cd /verif && VERIF_REPO=$WT VERIF_TIER=$TIER timeout 1500 ./check $P 2>&1 | grep -v "^KNOWN-FINDING" | tail -40)
 rc=$?
 caught=no; echo "$out" | grep -q "^VIOLATION property=$P" && caught=yes
 nofail=no; echo "$out" | grep -q "no-failing-input-found" && nofail=yes
